@@ -125,3 +125,7 @@ func (lb *loopBudget) hook(point string) {
 }
 
 func (lb *loopBudget) reset() { lb.n = 0 }
+
+// slot spreads a "one case in n" scenario over the workers: cases are dealt to workers by case number modulo the
+// worker count, so a selector like Case%16 == 9 would put every such case on one worker (and make it the long pole).
+func slot(c *CaseCtx, n int) int { return (c.Case + c.Case/n) % n }
